@@ -12,6 +12,7 @@
    ones show, for each rule of the unchanged code, an operation sequence on
    which the property fails — they are replayed on the real code by the check. *)
 From PV Require Import Base.Tac Info.InfoDefs Info.InfoRegProofs Info.InfoSpecProofs Info.InfoMain.
+From PV Require Import Info.InfoConcDefs Info.InfoConcProofs.
 From Coq Require Import NArith.
 Local Open Scope nat_scope.
 
@@ -163,6 +164,69 @@ Theorem C41_fresh_info_reads_null_refuted :
   erase_all w_stale (snd (run only_unreg_unfixed init w_stale)) <> spec_run spec_init w_stale.
 Proof. exact P_stale_slot_refuted. Qed.
 Print Assumptions C41_fresh_info_reads_null_refuted.
+
+(* ---- concurrent callers ------------------------------------------------------------
+   InfoConcDefs.v: any number of threads run test_and_set / set / get on one object array
+   (large enough: no resize), one atomic step per scheduling point of the T-sched harness
+   (the rwlock's and the list lock's atomic operations, the CAS of test_and_set); [crun]
+   folds an arbitrary schedule.  A slot i is used "publish-once" ([once_op]) when its
+   test_and_set calls expect NULL and bring a non-NULL value and nobody calls set on it. *)
+
+(* every non-NULL value returned by any call on a publish-once slot is the value the slot
+   holds: all callers (test_and_set winners and losers, gets, constructed defaults) agree *)
+Theorem C41_conc_all_callers_agree : forall infos progs sched i,
+  i < length infos -> (forall p, In p progs -> Forall (once_op i) p) ->
+  let c := crun (cinit infos progs) sched in
+  forall u th r, nth_error (g_thr c) u = Some th -> In r (c_res th) ->
+    res_slot r = i -> res_val r <> 0%N -> res_val r = slot c i.
+Proof. exact P_conc_agreement. Qed.
+Print Assumptions C41_conc_all_callers_agree.
+
+(* at most one winner per expected value NULL: two calls that both got their own value back
+   (a test_and_set that stored, a get whose constructed object was installed) brought the same value *)
+Theorem C41_conc_single_winner : forall infos progs sched i,
+  i < length infos -> (forall p, In p progs -> Forall (once_op i) p) ->
+  let c := crun (cinit infos progs) sched in
+  forall u1 th1 r1 u2 th2 r2,
+    nth_error (g_thr c) u1 = Some th1 -> In r1 (c_res th1) -> res_slot r1 = i ->
+    nth_error (g_thr c) u2 = Some th2 -> In r2 (c_res th2) -> res_slot r2 = i ->
+    res_val r1 = res_own r1 -> res_own r1 <> 0%N -> res_val r2 = res_own r2 -> res_own r2 <> 0%N ->
+    res_own r1 = res_own r2.
+Proof. exact P_conc_single_winner. Qed.
+Print Assumptions C41_conc_single_winner.
+
+(* any programs, any schedule: an object built by a constructor during a get is the value
+   returned, or it lost and is destructed exactly when the info has a destructor *)
+Theorem C41_conc_constructed_objects : forall infos progs sched u th j r made dead,
+  nth_error (g_thr (crun (cinit infos progs) sched)) u = Some th -> In (RG j r made dead) (c_res th) ->
+  (made = 0%N -> dead = []) /\
+  (made <> 0%N -> r <> 0%N /\ (r = made -> dead = []) /\
+                  (r <> made -> dead = if snd (nth j infos (0%N, false)) then [made] else [])).
+Proof. exact P_conc_objects. Qed.
+Print Assumptions C41_conc_constructed_objects.
+
+Theorem C41_conc_destructed_not_stored : forall infos progs sched i,
+  i < length infos -> (forall p, In p progs -> Forall (once_op i) p) ->
+  let c := crun (cinit infos progs) sched in
+  forall u th r made dead d, nth_error (g_thr c) u = Some th -> In (RG i r made dead) (c_res th) ->
+    In d dead -> d <> slot c i.
+Proof. exact P_conc_destructed_not_stored. Qed.
+Print Assumptions C41_conc_destructed_not_stored.
+
+(* three threads: one test_and_set, two first gets of a slot with constructor and destructor,
+   then another test_and_set; the default built by thread 2 wins, thread 1's is destructed *)
+Example C41_conc_example :
+  let c := crun (cinit [(5%N, true)] [[CT 0 0xa1%N 0%N]; [CG 0]; [CG 0; CT 0 0xb2%N 0%N]])
+                [2; 1; 2; 1; 2; 1; 2; 1; 2; 1; 2; 0; 1; 0; 2; 1; 0; 0; 1; 1; 1; 2; 2; 2; 2; 2; 2; 1; 1] in
+  c_all_done c = true /\ slot c 0 = mkobj 5 2 1 /\
+  map c_res (g_thr c) = [[RT 0 0xa1%N (mkobj 5 2 1)];
+                         [RG 0 (mkobj 5 2 1) (mkobj 5 1 1) [mkobj 5 1 1]];
+                         [RT 0 0xb2%N (mkobj 5 2 1); RG 0 (mkobj 5 2 1) (mkobj 5 2 1) []]] /\
+  Forall (once_op 0) [CG 0; CT 0 0xb2%N 0%N].
+Proof.
+  split; [|split; [|split]]; try (vm_compute; reflexivity).
+  constructor; [exact I|]. constructor; [|constructor]. intros _. split; [reflexivity|discriminate].
+Qed.
 
 (* ---- non-vacuity ----------------------------------------------------------------- *)
 (* three infos, a hole in the middle, two more registrations; an array created when only
